@@ -88,7 +88,20 @@ def run(ctx):
         try:
             data = gen.build_data(dspec)
             prior = gen.build_prior(ps)
-            samples = gen.build_samples(rows, units={"s": du}, ln_prior=bool(rng.random() < 0.3))
+            f32 = bool(rng.random() < 0.15)
+            if f32:
+                # a single-precision library (prior.sample(dtype=np.float32)): the oracle uses the float32-rounded values
+                for kx in ("P", "e", "omega", "M0"):
+                    rows[kx] = np.asarray(rows[kx], dtype=np.float32).astype(float)
+                # keep e float32-representable and within the claimed range (float32(0.99) is slightly above 0.99)
+                rows["e"] = np.where(rows["e"] > 0.99, float(np.nextafter(np.float32(0.99), np.float32(0))), rows["e"])
+                s_du = np.asarray(s_du, dtype=np.float32).astype(float)
+                rows["s_kms"] = np.array([gen.conv(x, du, "km/s") for x in s_du])
+            desc["float32_samples"] = f32
+            samples = gen.build_samples(rows, units={"s": du}, ln_prior=bool(rng.random() < 0.3),
+                                        dtype=np.float32 if f32 else None)
+            if f32:
+                samples["s"] = np.asarray(s_du, dtype=np.float32) * gen.U(du)
             if rng.random() < 0.3:
                 # a full posterior-like table (linear columns present): only P, e, omega, M0, s may be used
                 samples["K"] = rng.normal(size=nrows) * gen.U(du)
